@@ -508,7 +508,7 @@ class History(object):
         if est is not None:
             self.ests[op['out']] = {'e': est, 'lineage': lin, 'mol': d['mol'],
                                     'slot': op['slot'], 'made_at': idx,
-                                    'libobj': s['lib'], 'plain': plain,
+                                    'librec': s, 'plain': plain,
                                     # what the library had decomposed last
                                     # when the estimate was made
                                     'lib_last_mol': s['last_mol'],
@@ -531,10 +531,11 @@ class History(object):
             self.probe('evaluation_with_S_elements')
             if idx - e['made_at'] > 3:
                 self.probe('S_elements_long_after_creation')
-        s = self.slots.get(e['slot'])
-        later = []
-        if s is not None and s['lib'] is e['libobj']:
-            later = s['lineage']['merges'][len(e['lineage']['merges']):]
+        # the record of the library object the estimate was made from (it
+        # outlives the slot: the slot may hold another library by now, the
+        # merges that went into the object before still count)
+        rec = e['librec']
+        later = rec['lineage']['merges'][len(e['lineage']['merges']):]
         if later:
             # merges went into the estimate's library after it was made:
             # the reference does exactly the same, first, in a fresh process
